@@ -147,3 +147,56 @@ Definition op_of_inst (i : nat) (m : marg) : op :=
   | MStr v => InstSet i v
   | MNonStr => InstSet i NONSTR
   end.
+
+(** ** the property setters / deleters of [ITerm2ImageMeta] ([jpeg_quality], [read_from_file]):
+    one function serves the class level ([self] = the class, store [cd]) and the instance
+    level ([self] = the instance, store [idt]) — [ITerm2Image] re-uses the metaclass
+    property's [fget] / [fset] / [fdel] (checked by the translator) *)
+Inductive pcond :=
+| PNotInt          (* [not isinstance(x, int)] *)
+| PGt (b : Z)      (* [x > b] *)
+| PNotBool.        (* [not isinstance(x, bool)] *)
+
+Inductive pstmt :=
+| PRaiseIf (c : pcond)
+| PSet             (* [self._attr = x] *)
+| PDel.            (* [try: del self._attr / except AttributeError: pass] *)
+
+(** the argument: something that is not an int, an int that is not a bool, or a bool
+    ([isinstance(True, int)] holds in Python) *)
+Inductive parg := PNonInt | PInt (v : Z) | PBool (b : bool).
+
+Definition pval (a : parg) : Z :=
+  match a with PNonInt => 1000%Z | PInt v => v | PBool b => if b then 1%Z else 0%Z end.
+
+Definition pcond_holds (q : pcond) (a : parg) : bool :=
+  match q with
+  | PNotInt => match a with PNonInt => true | _ => false end
+  | PGt b => match a with PNonInt => true (* the comparison itself raises *) | _ => (b <? pval a)%Z end
+  | PNotBool => match a with PBool _ => false | _ => true end
+  end.
+
+(** the value the model's dictionaries hold for an argument of each setting *)
+Definition jcode (a : parg) : Z := pval a.
+Definition rcode (a : parg) : Z := match a with PBool b => if b then 1%Z else 0%Z | _ => 1000%Z end.
+
+Fixpoint pexec (vcode : parg -> Z) (x : nat) (a : parg) (l : list pstmt) (d : nat -> option Z)
+  : option (nat -> option Z) :=
+  match l with
+  | [] => Some d
+  | PRaiseIf q :: r => if pcond_holds q a then None else pexec vcode x a r d
+  | PSet :: r => pexec vcode x a r (upd d x (Some (vcode a)))
+  | PDel :: r => pexec vcode x a r (upd d x None)
+  end.
+
+Definition pcls_run (vcode : parg -> Z) (s : state) (c : nat) (a : parg) (prog : list pstmt) : state * out :=
+  match pexec vcode c a prog (cd s) with
+  | Some d => ({| cd := d; idt := idt s |}, Ok)
+  | None => (s, Rejected)
+  end.
+
+Definition pinst_run (vcode : parg -> Z) (s : state) (i : nat) (a : parg) (prog : list pstmt) : state * out :=
+  match pexec vcode i a prog (idt s) with
+  | Some d => ({| cd := cd s; idt := d |}, Ok)
+  | None => (s, Rejected)
+  end.
